@@ -65,4 +65,7 @@ def timerStep (st : TS) : List String → TS × List String
   | [] => (st, [])
   | _ => (st, ["bad-op"])
 
+def modes : List (String × IO Unit) :=
+  [("heap", runLines (#[] : H) heapStep), ("timer", runLines ({} : TS) timerStep)]
+
 end Drivers.C04
